@@ -155,8 +155,12 @@ class ScriptedClock:
 
 @contextlib.contextmanager
 def patched_clock(clock, samplers=True, samples=True):
-    import hmclab.Samplers as S
-    import hmclab.Samples as Sm
+    import importlib
+
+    S = importlib.import_module("hmclab.Samplers")
+    import hmclab.Samples  # noqa: F401  (the package attribute of that name is the class)
+
+    Sm = sys.modules["hmclab.Samples"]
 
     old_s, old_m = S._time, Sm._time
     if samplers:
